@@ -66,7 +66,9 @@ def insertions(b0, a):
             a[j1].line if j1 < len(a) else -1))
     return ins
 
-def merge(b0, a, b1):
+def merge(b0, a, b1, ambig=0):
+    """ambig: what to do when /repo gained code exactly where an annotation is anchored: 0 = MergeError,
+    1 = annotation first, then the new code, 2 = new code first."""
     ins = insertions(b0, a)
     ops = tokdiff(b0, b1)
     out = []
@@ -83,8 +85,14 @@ def merge(b0, a, b1):
                         "file": (b1[j1].src if j1 < len(b1) else None), "line": (b1[j1].line if j1 < len(b1) else None)})
         if tag == "insert":
             if i1 in ins:
-                raise MergeError("anchor ambiguous: code inserted in /repo exactly where an annotation is anchored (near %s:%s)" % (
-                    changes[-1]["file"], changes[-1]["line"]))
+                if ambig == 0:
+                    raise MergeError("anchor ambiguous: code inserted in /repo exactly where an annotation is anchored (near %s:%s)" % (
+                        changes[-1]["file"], changes[-1]["line"]))
+                if ambig == 1:
+                    out.extend(ins.pop(i1)); out.extend(b1[j1:j2])
+                else:
+                    out.extend(b1[j1:j2]); out.extend(ins.pop(i1))
+                continue
             out.extend(b1[j1:j2])
             continue
         # replace / delete of b0[i1:i2]
